@@ -1,5 +1,6 @@
 import GT.Model.Targets
 import GT.Lemmas.Charts
+import GT.Lemmas.Triangle
 import Mathlib.Tactic.FieldSimp
 import Mathlib.Tactic.Ring
 import Mathlib.Tactic.Linarith
@@ -10,7 +11,7 @@ open Finset BigOperators
 
 set_option linter.unusedSectionVars false
 
-namespace GT
+namespace GT.Targets
 
 section field
 variable {K : Type*} [Field K] {n : ℕ}
@@ -110,10 +111,10 @@ end field
 section ordered
 variable {K : Type*} [Field K] [LinearOrder K] [IsStrictOrderedRing K] {n : ℕ} {r : K → K}
 
-theorem IsSqrt.mul_self (hr : IsSqrt r) {a : K} (ha : 0 ≤ a) : r (a * a) = a := by
+theorem isSqrt_mul_self (hr : IsSqrt r) {a : K} (ha : 0 ≤ a) : r (a * a) = a := by
   have := hr.sq ha; rwa [pow_two] at this
 
-theorem IsSqrt.one (hr : IsSqrt r) : r 1 = 1 := by
+theorem isSqrt_one (hr : IsSqrt r) : r 1 = 1 := by
   simpa using hr.sq (zero_le_one (α := K))
 
 theorem normalize_timelike (hr : IsSqrt r) (x : Fin (n + 1) → K) (hx : mink x x < 0) :
@@ -131,15 +132,7 @@ theorem normalize_spacelike (hr : IsSqrt r) (x : Fin (n + 1) → K) (hx : 0 < mi
 /-- `normalize` does nothing to a vector of norm `±1` -/
 theorem normalize_unit (hr : IsSqrt r) (x : Fin (n + 1) → K) (hx : |mink x x| = 1) :
     normalize r x = x := by
-  unfold normalize; rw [hx, hr.one]; simp
-
-theorem mink_normalize_timelike (hr : IsSqrt r) (x : Fin (n + 1) → K) (hx : mink x x < 0) :
-    mink (normalize r x) (normalize r x) = -1 := by
-  have h := hr.pos (neg_pos.2 hx)
-  have h2 := (hr _ (neg_pos.2 hx).le).2
-  rw [normalize_timelike hr x hx, mink_div_left, mink_div_right]
-  field_simp
-  linear_combination h2
+  unfold normalize; rw [hx, isSqrt_one hr]; simp
 
 theorem mink_normalize_spacelike (hr : IsSqrt r) (x : Fin (n + 1) → K) (hx : 0 < mink x x) :
     mink (normalize r x) (normalize r x) = 1 := by
@@ -214,4 +207,4 @@ theorem pos_of_orth_timelike (u y : Fin (n + 1) → K) (hy : mink y y < 0) (h : 
     · simpa [hj0] using hj
 
 end ordered
-end GT
+end GT.Targets
